@@ -12,7 +12,7 @@ EXISTING = {"flat": ["a", "b"], "nested": ["a", "m.x", "m.y"], "attrpath": ["a",
             "quoted": ['"foo-bar"', '"a.b"', "a"], "deep": ["a", "m.n.x"], "attrpath-deep": ["m.n.x", "m.n.y", "a"], "inline": ["a"],
             "attrpath1": ["m.x", "a"], "inherit": ["b"], "empty": [],
             "twins": ["z", "a.enable", "b.enable", "enable", "m.x"], "twins-inline": ["a.enable", "b.enable", "c.enable"],
-            "attrpath-deep4": ["s.n.v.m.a", "s.n.v.m.b", "s.n.w", "k"]}
+            "attrpath-deep4": ["s.n.v.m.a", "s.n.v.m.b", "s.n.w", "k"], "attrpath-interleaved": ["s.n.a", "s.h.a", "s.n.p", "k"]}
 VALUES = ["2", '"s"', "[ 1 2 ]", "{ k = 1; }"]
 
 
